@@ -199,6 +199,16 @@ impl Send {
         // Validate headers
         Self::check_headers(frame.fields())?;
 
+        // An interim response is only valid before the final response, on a
+        // stream that has not been reset or closed.
+        if !stream.state.is_send_awaiting_headers() {
+            return Err(if stream.state.is_closed() {
+                UserError::InactiveStreamId
+            } else {
+                UserError::UnexpectedFrameType
+            });
+        }
+
         debug_assert!(frame.is_informational(),
             "Frame must be informational (1xx status code) at this point. Validation should happen at the public API boundary.");
         debug_assert!(!frame.is_end_stream(),
